@@ -67,6 +67,10 @@ pub enum UringOpRequest {
   ShutdownConnectionHandler {
     user_data: UserData,
     fd: RawFd,
+    /// Which connection is meant: the token its handler was registered with (0 = whatever handler
+    /// has the descriptor). A descriptor number is handed out again as soon as it is closed, so a
+    /// request that arrives late must not shut down the next connection that got the number.
+    conn_token: u64,
     reply_tx: oneshot::Sender<Result<UringOpCompletion, ZmqError>>,
   },
   /// Registers a pre-connected FD with full ZMTP protocol handling on the worker thread.
